@@ -10,6 +10,7 @@ import IcingaProofs.C20.MessageLemmas
 import IcingaProofs.C20.DictLemmas
 import IcingaProofs.C20.Utf8Lemmas
 import IcingaModel.C20.SpecText
+import IcingaProofs.Gen.Limits
 
 namespace Icinga.C20
 
@@ -344,24 +345,78 @@ theorem surrogate_roundtrip (c : Char) (h : 0x10000 ≤ c.toNat) (rest : List UI
       = some (c, rest) :=
   surrogate_roundtrip_aux c h rest
 
-/-- **json_roundtrip.**  For every lawful number codec and every value — any nesting of null, booleans,
-    numbers, strings over all of Unicode, arrays and objects, empty containers, any keys (no bound on depth
-    or size) — `JsonDecode (JsonEncode v) = v`.  (Objects are association lists in textual order; for
-    key-sorted duplicate-free lists, which is what an Icinga `Dictionary` is, this is equality of dictionaries.) -/
-theorem json_roundtrip {N : Type} (c : NumCodec N) (hc : c.Lawful) (v : JValue N) :
+/-- **json_parser_roundtrip.**  The parser proper (no nesting limit): for every lawful number codec and every value
+    — any nesting of null, booleans, numbers, strings over all of Unicode, arrays and objects, empty containers,
+    any keys — parsing the encoder's text gives the value back. -/
+theorem json_parser_roundtrip {N : Type} (c : NumCodec N) (hc : c.Lawful) (v : JValue N) :
     jsonDecode c (jsonEncode c v) = some v :=
   jsonValue_roundtrip_aux c hc v
+
+/-- **nesting_limit_matches_source.**  The model's nesting limit is the constant `l_JsonMaxNestingDepth` that
+    gen/c20_limits.py reads from lib/base/json.cpp on every run: a changed constant breaks this obligation. -/
+theorem nesting_limit_matches_source : jsonMaxNestingDepth = Icinga.Gen.Limits.jsonMaxNestingDepthSrc := by decide
+
+/-- `jsonDecodeL` = the parser, then the limit. -/
+theorem jsonDecodeL_eq_some {N : Type} (c : NumCodec N) (bs : List UInt8) (v : JValue N) :
+    jsonDecodeL c bs = some v ↔ jsonDecode c bs = some v ∧ depth v ≤ jsonMaxNestingDepth := by
+  unfold jsonDecodeL
+  cases h : jsonDecode c bs with
+  | none => simp
+  | some w =>
+    by_cases hw : depth w ≤ jsonMaxNestingDepth
+    · simp only [withinNesting, hw, decide_true, if_true, Option.some.injEq]
+      constructor
+      · intro e; subst e; exact ⟨rfl, hw⟩
+      · intro e; exact e.1
+    · simp only [withinNesting, hw, decide_false, Bool.false_eq_true, if_false, Option.some.injEq]
+      constructor
+      · intro e; cases e
+      · intro e; obtain ⟨e1, e2⟩ := e; subst e1; exact absurd e2 hw
+
+/-- **json_roundtrip.**  `JsonDecode (JsonEncode v) = v` for every lawful number codec and every value — any nesting
+    of null, booleans, numbers, strings over all of Unicode, arrays and objects, empty containers, any keys, any size
+    — whose nesting depth is at most the decoder's limit of 1000 (the property quantifies to depth 64).  (Objects
+    are association lists in textual order; see `json_roundtrip_dict` for dictionaries as Icinga holds them.) -/
+theorem json_roundtrip {N : Type} (c : NumCodec N) (hc : c.Lawful) (v : JValue N)
+    (hd : depth v ≤ jsonMaxNestingDepth) : jsonDecodeL c (jsonEncode c v) = some v :=
+  (jsonDecodeL_eq_some c _ v).mpr ⟨jsonValue_roundtrip_aux c hc v, hd⟩
+
+/-- **json_too_deep_rejected.**  Beyond the limit even the encoder's own output is refused (an error, not a crash:
+    repair of F-C20a). -/
+theorem json_too_deep_rejected {N : Type} (c : NumCodec N) (hc : c.Lawful) (v : JValue N)
+    (hd : jsonMaxNestingDepth < depth v) : jsonDecodeL c (jsonEncode c v) = none := by
+  cases h : jsonDecodeL c (jsonEncode c v) with
+  | none => rfl
+  | some w =>
+    have := (jsonDecodeL_eq_some c _ w).mp h
+    rw [jsonValue_roundtrip_aux c hc v] at this
+    obtain ⟨e, hw⟩ := this
+    simp only [Option.some.injEq] at e
+    subst e; omega
+
+/-- **decode_nesting_bounded** (replaces the unboundedness statement of finding F-C20a, fixed by 24727c0).  Every
+    document `JsonDecode` accepts — any bytes — has nesting depth at most 1000: the recursion that destroys or
+    renders a decoded value is bounded.  The bound is sharp: 1000 nested arrays are accepted, 1001 are refused. -/
+theorem decode_nesting_bounded {N : Type} (c : NumCodec N) (hc : c.Lawful) :
+    (∀ (bs : List UInt8) (v : JValue N), jsonDecodeL c bs = some v → depth v ≤ 1000) ∧
+    jsonDecodeL c (jsonEncode c (nest 999 : JValue N)) = some (nest 999) ∧
+    jsonDecodeL c (jsonEncode c (nest 1000 : JValue N)) = none :=
+  ⟨fun bs v h => ((jsonDecodeL_eq_some c bs v).mp h).2,
+   json_roundtrip c hc _ (by rw [depth_nest]; decide),
+   json_too_deep_rejected c hc _ (by rw [depth_nest]; decide)⟩
 
 /-- **int_codec_lawful.**  The integer instance of the number codec satisfies the codec laws (decimal
     printing and canonical parsing round-trip); the binary64 instance (nlohmann's printer + strtod) is an
     assumption, fuzzed bit-exactly by the harness on every run. -/
 theorem int_codec_lawful : intCodec.Lawful := intCodec_lawful_aux
 
-/-- JSON round trip for values whose numbers are integers (all hypotheses discharged). -/
-theorem json_roundtrip_int (v : JValue Int) : jsonDecode intCodec (jsonEncode intCodec v) = some v :=
-  json_roundtrip intCodec int_codec_lawful v
+/-- JSON round trip for values whose numbers are integers (all codec hypotheses discharged). -/
+theorem json_roundtrip_int (v : JValue Int) (hd : depth v ≤ jsonMaxNestingDepth) :
+    jsonDecodeL intCodec (jsonEncode intCodec v) = some v :=
+  json_roundtrip intCodec int_codec_lawful v hd
 
-example : jsonDecode intCodec (jsonEncode intCodec sampleValue) = some sampleValue := json_roundtrip_int sampleValue
+example : jsonDecodeL intCodec (jsonEncode intCodec sampleValue) = some sampleValue :=
+  json_roundtrip_int sampleValue (by decide)
 example : (jsonDecode intCodec (asciiBytes "[1,]")).isNone = true := by decide +kernel
 example : jsonDecodeString (asciiBytes "\"\\ud800\"") = none := by decide +kernel
 
@@ -404,30 +459,39 @@ example : sanitiseSpec [0xC3, 0xA9] [0xEF, 0xBF, 0xBD] = some .utf8KeepsValid :=
 example : sanitise [0xE2, 0x28, 0xA1] = [0xEF, 0xBF, 0xBD, 0x28, 0xEF, 0xBF, 0xBD] := by decide +kernel
 
 /-- **json_roundtrip_bytes.**  The round trip composed down to bytes: for a value whose strings and keys are arbitrary
-    byte strings (what an Icinga `Value` holds), `JsonDecode (JsonEncode v)` — sanitise, escape, parse, re-encode as
-    UTF-8 — is `v` with every string sanitised; hence `v` itself when its strings are well-formed UTF-8.  (The encoded
-    text is pure ASCII, so the decoder's own sanitising step is the identity on it.) -/
-theorem json_roundtrip_bytes {N : Type} (c : NumCodec N) (hc : c.Lawful) (v : BValue N) :
-    jsonDecodeB c (jsonEncodeB c v) = some v.sanitised ∧
-    (v.sanitised = v → jsonDecodeB c (jsonEncodeB c v) = some v) :=
-  ⟨json_roundtrip_bytes_aux c hc v, json_roundtrip_bytes_wellformed c hc v⟩
+    byte strings (what an Icinga `Value` holds) and whose nesting depth is within the limit, `JsonDecode (JsonEncode v)`
+    — sanitise, escape, parse (with the limit), re-encode as UTF-8 — is `v` with every string sanitised; hence `v`
+    itself when its strings are well-formed UTF-8.  (The encoded text is pure ASCII, so the decoder's own sanitising
+    step is the identity on it.) -/
+theorem json_roundtrip_bytes {N : Type} (c : NumCodec N) (hc : c.Lawful) (v : BValue N)
+    (hd : depth v.toJ ≤ jsonMaxNestingDepth) :
+    jsonDecodeBL c (jsonEncodeB c v) = some v.sanitised ∧
+    (v.sanitised = v → jsonDecodeBL c (jsonEncodeB c v) = some v) := by
+  have h : jsonDecodeBL c (jsonEncodeB c v) = some v.sanitised := by
+    unfold jsonDecodeBL jsonEncodeB
+    rw [sanitise_ascii _ (jsonEncode_ascii c hc v.toJ), json_roundtrip c hc v.toJ hd, Option.map_some, toJ_toB]
+  exact ⟨h, fun hv => by rw [h, hv]⟩
 
 /-! ## Dictionaries as Icinga holds them (std::map: sorted by key, `Set` overwrites) — IcingaModel/C20/Dict.lean -/
 
 /-- **json_roundtrip_dict.**  Seen as Icinga values (every dictionary a key-sorted, duplicate-free map — which is
-    what `Dictionary` is, so the encoder emits members in ascending key order), every value survives
-    `JsonDecode ∘ JsonEncode` unchanged.  `icingaDecode` = parse, then build every object with `Dictionary::Set`
-    in textual order. -/
-theorem json_roundtrip_dict {N : Type} (c : NumCodec N) (hc : c.Lawful) (v : JValue N) (hv : Canonical v) :
-    icingaDecode c (jsonEncode c v) = some v :=
-  json_roundtrip_dict_aux c hc v hv
+    what `Dictionary` is, so the encoder emits members in ascending key order), every value of depth within the
+    limit survives `JsonDecode ∘ JsonEncode` unchanged.  `icingaDecodeL` = parse with the limit, then build every
+    object with `Dictionary::Set` in textual order. -/
+theorem json_roundtrip_dict {N : Type} (c : NumCodec N) (hc : c.Lawful) (v : JValue N) (hv : Canonical v)
+    (hd : depth v ≤ jsonMaxNestingDepth) : icingaDecodeL c (jsonEncode c v) = some v := by
+  unfold icingaDecodeL
+  rw [json_roundtrip c hc v hd, Option.map_some, canonV_of_canonical_aux v hv]
 
 /-- **json_decode_encode_any.**  What happens otherwise (member lists that are unsorted or contain duplicate keys,
     e.g. hostile text): the result is the canonical form — sorted by key, the LAST of several equal keys wins
     (`canon_last_wins`) — and it is always an Icinga value; canonicalising is idempotent. -/
-theorem json_decode_encode_any {N : Type} (c : NumCodec N) (hc : c.Lawful) (v : JValue N) :
-    icingaDecode c (jsonEncode c v) = some (canonV v) ∧ Canonical (canonV v) ∧ canonV (canonV v) = canonV v :=
-  ⟨icingaDecode_jsonEncode_aux c hc v, canonV_canonical_aux v, canon_idempotent_aux v⟩
+theorem json_decode_encode_any {N : Type} (c : NumCodec N) (hc : c.Lawful) (v : JValue N)
+    (hd : depth v ≤ jsonMaxNestingDepth) :
+    icingaDecodeL c (jsonEncode c v) = some (canonV v) ∧ Canonical (canonV v) ∧ canonV (canonV v) = canonV v := by
+  refine ⟨?_, canonV_canonical_aux v, canon_idempotent_aux v⟩
+  unfold icingaDecodeL
+  rw [json_roundtrip c hc v hd, Option.map_some]
 
 /-- **canon_last_wins.**  Looking a key up in the dictionary built from a member list gives the value of the last
     member with that key, and the dictionary is sorted. -/
@@ -438,16 +502,17 @@ theorem canon_last_wins {N : Type} (k : List Char) (kvs : List (List Char × JVa
 /-! ## JSON-RPC messages (JsonRpc::DecodeMessage, the receive loop of JsonRpcConnection) -/
 
 /-- **decode_message_only_objects.**  `DecodeMessage` yields a dictionary exactly when the payload decodes
-    to a JSON object (then: that object); every other payload — malformed text, `null`, booleans, numbers,
-    strings, arrays — ends in an error, never in a value handed to the caller. -/
+    to a JSON object (then: that object) nested no deeper than the limit; every other payload — malformed text,
+    `null`, booleans, numbers, strings, arrays, too deep a document — ends in an error, never in a value handed to
+    the caller. -/
 theorem decode_message_only_objects {N : Type} (c : NumCodec N) (bs : List UInt8) :
-    (∀ kvs, decodeMessage c bs = .ok kvs ↔ jsonDecode c bs = some (.obj kvs)) ∧
-    (jsonDecode c bs = none → decodeMessage c bs = .error .malformed) ∧
-    (∀ v, jsonDecode c bs = some v → (∀ kvs, v ≠ .obj kvs) → decodeMessage c bs = .error .notObject) := by
+    (∀ kvs, decodeMessage c bs = .ok kvs ↔ jsonDecodeL c bs = some (.obj kvs)) ∧
+    (jsonDecodeL c bs = none → decodeMessage c bs = .error .malformed) ∧
+    (∀ v, jsonDecodeL c bs = some v → (∀ kvs, v ≠ .obj kvs) → decodeMessage c bs = .error .notObject) := by
   refine ⟨?_, ?_, ?_⟩
   · intro kvs
     unfold decodeMessage
-    cases h : jsonDecode c bs with
+    cases h : jsonDecodeL c bs with
     | none => simp
     | some v => cases v <;> simp
   · intro h; simp [decodeMessage, h]
@@ -460,13 +525,14 @@ theorem decode_message_only_objects {N : Type} (c : NumCodec N) (bs : List UInt8
 
 /-- **decode_message_roundtrip.**  An encoded dictionary is accepted and comes back unchanged; an encoded value
     of any other kind is rejected (lawful number codec). -/
-theorem decode_message_roundtrip {N : Type} (c : NumCodec N) (hc : c.Lawful) (v : JValue N) :
+theorem decode_message_roundtrip {N : Type} (c : NumCodec N) (hc : c.Lawful) (v : JValue N)
+    (hd : depth v ≤ jsonMaxNestingDepth) :
     decodeMessage c (jsonEncode c v) =
       match v with
       | .obj kvs => .ok kvs
       | _ => .error .notObject := by
   unfold decodeMessage
-  rw [json_roundtrip c hc v]
+  rw [json_roundtrip c hc v hd]
   cases v <;> rfl
 
 /-- **message_model_meets_spec.**  Whatever `DecodeMessage`'s model does on any payload satisfies the executable
@@ -477,7 +543,7 @@ theorem message_model_meets_spec {N : Type} (c : NumCodec N) (bs : List UInt8) :
   cases h : decodeMessage c bs with
   | error e => rfl
   | ok kvs =>
-    have hd := ((decode_message_only_objects c bs).1 kvs).mp h
+    have hd := ((jsonDecodeL_eq_some c bs _).mp (((decode_message_only_objects c bs).1 kvs).mp h)).1
     unfold jsonDecode at hd
     cases hv : decodeValueF c (bs.length + 1) bs with
     | none => simp [hv] at hd
@@ -493,10 +559,12 @@ theorem message_model_meets_spec {N : Type} (c : NumCodec N) (bs : List UInt8) :
         simp [obsOfMsg, messageSpec, ht, firstNonWs_cons_brace]
 
 /-- **recv_message_only_objects.**  One iteration of the receive loop hands a message to the handlers only if the
-    stream starts with a canonical frame within the limit whose payload decodes to a JSON object. -/
+    stream starts with a canonical frame within the size limit whose payload decodes to a JSON object nested no
+    deeper than 1000. -/
 theorem recv_message_only_objects {N : Type} (c : NumCodec N) (max : Option Nat) (bs : Bytes)
     (kvs : List (List Char × JValue N)) (rest : Bytes) (h : recvMessage c max bs = .message kvs rest) :
-    ∃ p, bs = nsEncode p ++ rest ∧ tlsLimitExceeded max p.length = false ∧ jsonDecode c p = some (.obj kvs) := by
+    ∃ p, bs = nsEncode p ++ rest ∧ tlsLimitExceeded max p.length = false ∧ jsonDecodeL c p = some (.obj kvs) ∧
+      depth (.obj kvs : JValue N) ≤ 1000 := by
   unfold recvMessage at h
   cases ho : (nsReadTls max bs).out with
   | eof => simp [ho] at h
@@ -510,20 +578,8 @@ theorem recv_message_only_objects {N : Type} (c : NumCodec N) (max : Option Nat)
       obtain ⟨hk, hr⟩ := h
       subst hk; subst hr
       have hc := netstring_accepts_only_canonical max bs p r (nsReadTls max bs).alloc (by rw [← ho])
-      exact ⟨p, hc.1, hc.2.2.1, ((decode_message_only_objects c p).1 k).mp hm⟩
-
-/-- **decode_nesting_unbounded** (Lean side of finding F-C20a).  The property's "processed without crashing"
-    cannot be stated about the model (it has no stack); what the model shows is why the real code fails it: the
-    decoder — transcribed faithfully — enforces no nesting limit.  For every depth `d` there is a text of only
-    `2(d+1)` bytes that is accepted as JSON, whose value nests `d+1` containers (= the depth of the recursion
-    that destroys it), and which `DecodeMessage` rejects only *after* the whole tree has been built.  On the real
-    code a frame with d ≈ 10000 (12 KB; limit for unauthenticated peers: 1 MiB) overflows the 256 KiB coroutine
-    stack: replayed on every run from corpus/C20/known_F-C20a.ops, reported as KNOWN-FINDING. -/
-theorem decode_nesting_unbounded {N : Type} (c : NumCodec N) (hc : c.Lawful) (d : Nat) :
-    ∃ (bs : List UInt8) (v : JValue N), bs.length = 2 * (d + 1) ∧ jsonDecode c bs = some v ∧ depth v = d + 1 ∧
-      decodeMessage c bs = .error .notObject :=
-  ⟨jsonEncode c (nest d), nest d, encode_nest_length c d, json_roundtrip c hc _, depth_nest d, by
-    rw [decode_message_roundtrip c hc]; cases d <;> rfl⟩
+      have hj := ((decode_message_only_objects c p).1 k).mp hm
+      exact ⟨p, hc.1, hc.2.2.1, hj, ((jsonDecodeL_eq_some c p _).mp hj).2⟩
 
 -- "null", "42", "[]" are rejected; "{}" is accepted; the specification rejects a null result
 example : obsOfMsg (decodeMessage intCodec (asciiBytes "null")) = .rejected := by decide +kernel
